@@ -421,7 +421,8 @@ Proof.
 Qed.
 
 Lemma step_core_new s th i n s' : step_core s th (ENewInst i n) = Some s' ->
-  get i (insts s) = None /\ exists c, get n (confs s) = Some c /\ s' = s <| insts := set i (new_inst n c) (insts s) |>.
+  get i (insts s) = None /\ exists c, get n (confs s) = Some c /\
+  s' = set_stage th i 0 (s <| insts := set i (new_inst n c) (insts s) |>).
 Proof.
   intros H. cbn in H. unfold step_reg in H. break_step H. subst s'.
   apply negb_true_iff in E0. unfold has in E0. destruct (get i (insts s)); [discriminate|]. eauto.
